@@ -5,6 +5,7 @@ patch applied in turn (skipped with a note if it no longer applies). Updates det
 base_commit in /verif/seeded/<name>/meta.json. The demo and the pinned suite are NOT re-run here (see meta 'ran')."""
 import json, os, subprocess, sys
 W = os.environ.get("SEED_WT", "/tmp/wt/v")
+CODE = os.environ.get("XSA_CODE", "/verif")  # where the checkers are run from (a frozen copy during long evaluations)
 def sh(cmd, cwd=None, env=None):
     return subprocess.run(cmd, cwd=cwd, shell=True, capture_output=True, text=True, env=env)
 head = sh("git -C /repo rev-parse HEAD").stdout.strip()
@@ -13,7 +14,7 @@ if not os.path.isdir(W):
 sh("git checkout -q -- . && git clean -fdq", cwd=W); sh(f"git checkout -q --detach {head}", cwd=W)
 def runall():
     out = f"/tmp/seed_recheck_{os.getpid()}.json"
-    sh(f"/verif/tools/runall.py --root {W}", cwd="/verif", env=dict(os.environ, XSA_RUNALL_OUT=out))
+    sh(f"{CODE}/tools/runall.py --root {W}", cwd=CODE, env=dict(os.environ, XSA_RUNALL_OUT=out))
     d = json.load(open(out)); os.remove(out); return d
 base = runall()
 bad_base = {p: v for p, v in base.items() if v["rc"] != 0}
